@@ -19,8 +19,11 @@ import (
 // set listed by ascending node id.
 //
 // The model answers only where the statement and the XPath recommendation
-// leave no room: predicate-free steps (plus the purely positional first
-// predicate of a child step: [n], [last()], [last()-k], [position() op n]),
+// leave no room: steps without predicates, with the purely positional first
+// predicate of a child step that C03 allows ([n], [last()], [last()-k],
+// [position() op n]) and with boolean predicates of the C02 forms the fragment
+// uses (path existence, not(path), path = / != literal, count(path) op number,
+// contains / starts-with(path, literal), local-name() = literal),
 // and name tests whose outcome does not depend on how prefixes are bound
 // (an unprefixed test against unprefixed, namespace-less nodes; a test whose
 // local name differs; a prefixed test where comparing prefixes and comparing
@@ -141,9 +144,9 @@ func (m *flatModel) axis(ax string, n *world.Node) (nodes []*world.Node, princip
 	return
 }
 
-// posPred interprets the purely positional predicates of the fragment;
-// keep(pos, last) for 1-based pos.
-func (m *flatModel) posPred(p *scn.E) func(pos, last int) bool {
+// posPred interprets the purely positional predicates of the fragment (C03):
+// keep(pos, last) for 1-based pos; nil when p is not of these forms.
+func posPred(p *scn.E) func(pos, last int) bool {
 	isFn := func(e *scn.E, name string) bool { return e.Op == "fn" && e.S == name && len(e.Kids) == 0 }
 	whole := func(e *scn.E) (int, bool) {
 		if e.Op == "num" && e.F == float64(int(e.F)) && e.F >= 0 && e.F < 1000 {
@@ -183,18 +186,116 @@ func (m *flatModel) posPred(p *scn.E) func(pos, last int) bool {
 			}
 		}
 	}
-	m.decline("predicate outside the positional forms")
 	return nil
+}
+
+// literal: the string an expression tree's "str" node denotes in the written
+// text (scn.quote drops double quotes from a literal that has both kinds).
+func literal(e *scn.E) string {
+	if strings.Contains(e.S, "'") {
+		return strings.ReplaceAll(e.S, "\"", "")
+	}
+	return e.S
+}
+
+// relPath: the nodes a predicate-free relative flat path selects from n.
+func (m *flatModel) relPath(e *scn.E, n *world.Node) []*world.Node {
+	if e.Op != "path" || e.S != "" {
+		m.decline("operand is not a relative path")
+		return nil
+	}
+	cur := []*world.Node{n}
+	for i, s := range e.Kids {
+		if s.Op != "step" || len(s.Kids) > 0 {
+			m.decline("operand path with predicates")
+			return nil
+		}
+		if i > 0 && s.Sep == "//" {
+			cur = m.step(cur, "descendant-or-self", "node()", nil)
+		}
+		cur = m.step(cur, s.S, s.T, nil)
+		if !m.ok {
+			return nil
+		}
+	}
+	return cur
+}
+
+// boolPred: the XPath 1.0 boolean value of predicate p with n as context node,
+// for the boolean predicate forms of C02 that the flat fragment uses.
+func (m *flatModel) boolPred(p *scn.E, n *world.Node) bool {
+	switch {
+	case p.Op == "path":
+		return len(m.relPath(p, n)) > 0
+	case p.Op == "fn" && p.S == "not" && len(p.Kids) == 1 && p.Kids[0].Op == "path":
+		return len(m.relPath(p.Kids[0], n)) == 0
+	case p.Op == "fn" && (p.S == "contains" || p.S == "starts-with") && len(p.Kids) == 2 && p.Kids[0].Op == "path" && p.Kids[1].Op == "str":
+		// string(node-set): the string-value of its first node in document order, or ""
+		ns := m.relPath(p.Kids[0], n)
+		v := ""
+		if len(ns) > 0 {
+			v = ns[0].StringValue()
+		} else if literal(p.Kids[1]) == "" {
+			// contains(empty node-set, ''): true by the recommendation ("" contains
+			// ""), false in this package, whose string functions answer false for an
+			// empty node-set argument on purpose (func.go: containsFunc). What a
+			// function makes of an empty node-set is not C12's subject: unjudged.
+			m.decline("string function of an empty node-set and an empty literal")
+			return false
+		}
+		if p.S == "contains" {
+			return strings.Contains(v, literal(p.Kids[1]))
+		}
+		return strings.HasPrefix(v, literal(p.Kids[1]))
+	case p.Op == "bin" && len(p.Kids) == 2 && (p.S == "=" || p.S == "!=") && p.Kids[0].Op == "path" && p.Kids[1].Op == "str":
+		// node-set against string: true iff SOME node's string-value compares true
+		lit := literal(p.Kids[1])
+		for _, x := range m.relPath(p.Kids[0], n) {
+			if (x.StringValue() == lit) == (p.S == "=") {
+				return true
+			}
+		}
+		return false
+	case p.Op == "bin" && len(p.Kids) == 2 && p.Kids[0].Op == "fn" && p.Kids[0].S == "count" && len(p.Kids[0].Kids) == 1 && p.Kids[0].Kids[0].Op == "path" && p.Kids[1].Op == "num":
+		c := float64(len(m.relPath(p.Kids[0].Kids[0], n)))
+		switch p.S {
+		case "<":
+			return c < p.Kids[1].F
+		case "<=":
+			return c <= p.Kids[1].F
+		case ">":
+			return c > p.Kids[1].F
+		case ">=":
+			return c >= p.Kids[1].F
+		case "=":
+			return c == p.Kids[1].F
+		case "!=":
+			return c != p.Kids[1].F
+		}
+	case p.Op == "bin" && p.S == "=" && len(p.Kids) == 2 && p.Kids[0].Op == "fn" && p.Kids[0].S == "local-name" && len(p.Kids[0].Kids) == 0 && p.Kids[1].Op == "str":
+		if n.Kind != xpath.ElementNode && n.Kind != xpath.AttributeNode {
+			// "" by the recommendation; navigators differ in what they report as the
+			// name of a text or comment node
+			m.decline("local-name() of a node without a name")
+			return false
+		}
+		return n.Local == literal(p.Kids[1])
+	}
+	m.decline("predicate outside the modelled forms")
+	return false
 }
 
 func (m *flatModel) step(in []*world.Node, ax, t string, preds []*scn.E) []*world.Node {
 	var keep func(pos, last int) bool
-	switch {
-	case len(preds) == 0:
-	case len(preds) == 1 && ax == "child":
-		keep = m.posPred(preds[0])
-	default:
-		m.decline("predicates")
+	if len(preds) > 0 && ax == "child" {
+		if keep = posPred(preds[0]); keep != nil {
+			preds = preds[1:]
+		}
+	}
+	for _, p := range preds {
+		if posPred(p) != nil {
+			m.decline("positional predicate outside the first place of a child step")
+		}
 	}
 	if !m.ok {
 		return nil
@@ -209,14 +310,23 @@ func (m *flatModel) step(in []*world.Node, ax, t string, preds []*scn.E) []*worl
 				pass = append(pass, c)
 			}
 		}
+	candidates:
 		for i, c := range pass {
 			if keep != nil && !keep(i+1, len(pass)) {
 				continue
+			}
+			for _, p := range preds {
+				if !m.boolPred(p, c) || !m.ok {
+					continue candidates
+				}
 			}
 			if !seen[c.ID] {
 				seen[c.ID] = true
 				out = append(out, c)
 			}
+		}
+		if !m.ok {
+			return nil
 		}
 	}
 	sort.Slice(out, func(i, j int) bool { return out[i].ID < out[j].ID })
